@@ -608,14 +608,14 @@ def event_graph(fn, role_of, ret_local=0, max_states=40000, branch_role=None, st
                 r = branch_role(fn, b, switch_pred(fn, b))
                 if r is not None:
                     br_roles[b] = r
-    start = ("ENTRY", frozenset(), "", None, frozenset())
+    start = ("ENTRY", frozenset(), "", None, frozenset(), frozenset())
     work = [(0, start)]
     seen = set()
     n = 0
     while work:
         bb, st = work.pop()
-        src, aliases, label, retv, decided = st
-        key = (bb, src, aliases, label, retv, decided)
+        src, aliases, label, retv, decided, kb = st
+        key = (bb, src, aliases, label, retv, decided, kb)
         if key in seen:
             continue
         seen.add(key)
@@ -633,6 +633,14 @@ def event_graph(fn, role_of, ret_local=0, max_states=40000, branch_role=None, st
                     src, label, aliases = node, "", set()
             if s.k != "assign" or s.rv is None:
                 continue
+            # constant propagation for unnamed bool temporaries (`matches!`, `&&`/`||`, drop flags): makes the
+            # following switch on them path-sensitive instead of joining both outcomes
+            if s.lhs is not None and s.lhs.is_local():
+                ll = s.lhs.local
+                if kb and any(x[0] == ll for x in kb):
+                    kb = frozenset(x for x in kb if x[0] != ll)
+                if fn.local_name(ll) is None and fn.local_ty(ll) == "bool" and s.rv.k == "use" and s.rv.ops[0].kind == "const" and isinstance(s.rv.ops[0].const_value(), bool) and ll not in mut_borrowed(fn):
+                    kb = kb | {(ll, s.rv.ops[0].const_value())}
             if decided and s.lhs is not None and not (s.rv.k == "discr"):
                 decided = frozenset(x for x in decided if x[0][1] != s.lhs.local)
             if s.lhs.is_local():
@@ -661,6 +669,8 @@ def event_graph(fn, role_of, ret_local=0, max_states=40000, branch_role=None, st
         t = blk.term
         if decided and t.k == "call" and t.dest is not None:
             decided = frozenset(x for x in decided if x[0][1] != t.dest.local)
+        if kb and t.k == "call" and t.dest is not None:
+            kb = frozenset(x for x in kb if x[0] != t.dest.local)
         if bb in ev_blocks:
             node = ("ev", bb, ev_blocks[bb])
             g.add(src, label, node)
@@ -670,7 +680,7 @@ def event_graph(fn, role_of, ret_local=0, max_states=40000, branch_role=None, st
                 if t.dest.local == ret_local:
                     retv = "ev:%s" % ev_blocks[bb]
             if t.target is not None:
-                work.append((t.target, (node, frozenset(nal), "", retv, decided)))
+                work.append((t.target, (node, frozenset(nal), "", retv, decided, kb)))
             continue
         if t.k == "return":
             g.add(src, label, ("ret", retv if retv is not None else "?"))
@@ -687,21 +697,31 @@ def event_graph(fn, role_of, ret_local=0, max_states=40000, branch_role=None, st
                     follow = prev if prev in [str(x) for x in labs] else "else"
                     for lab, tgt in switch_edges(fn, bb):
                         if str(lab) == follow:
-                            work.append((tgt, (src, frozenset(aliases), label, retv, decided)))
+                            work.append((tgt, (src, frozenset(aliases), label, retv, decided, kb)))
                     continue
                 node = ("ev", bb, br_roles[bb])
                 g.add(src, label, node)
                 for lab, tgt in switch_edges(fn, bb):
                     nd = decided | {(pk, str(lab))} if pk is not None else decided
-                    work.append((tgt, (node, frozenset(), str(lab), retv, nd)))
+                    work.append((tgt, (node, frozenset(), str(lab), retv, nd, kb)))
                 continue
             on_result = t.discr.place is not None and t.discr.place.is_local() and t.discr.place.local in aliases
+            known = None
+            if t.discr.place is not None and t.discr.place.is_local():
+                for kl, kv in kb:
+                    if kl == t.discr.place.local:
+                        known = kv
+            if known is not None and not on_result:
+                for lab, tgt in switch_edges(fn, bb):
+                    if (lab == 0) == (known is False) and (lab == 0 or lab == "else"):
+                        work.append((tgt, (src, frozenset(aliases), label, retv, decided, kb)))
+                continue
             for lab, tgt in switch_edges(fn, bb):
                 if on_result:
                     nl = (label + "," if label else "") + str(lab)
                 else:
                     nl = label
-                work.append((tgt, (src, frozenset(aliases), nl, retv, decided)))
+                work.append((tgt, (src, frozenset(aliases), nl, retv, decided, kb)))
             continue
         if t.k == "call":
             if t.dest is not None and t.dest.is_local():
@@ -712,10 +732,10 @@ def event_graph(fn, role_of, ret_local=0, max_states=40000, branch_role=None, st
                 if t.dest.local == ret_local:
                     retv = "call:%s" % short(t.callee)
             if t.target is not None:
-                work.append((t.target, (src, frozenset(aliases), label, retv, decided)))
+                work.append((t.target, (src, frozenset(aliases), label, retv, decided, kb)))
             continue
         for s2 in fn.succs(bb):
-            work.append((s2, (src, frozenset(aliases), label, retv, decided)))
+            work.append((s2, (src, frozenset(aliases), label, retv, decided, kb)))
     return g
 
 
